@@ -52,7 +52,8 @@ TRUSTED = [
     "by the server); not validated against live servers.  default/sqlite text is judged under generic ANSI semantics",
     "SQLAlchemy's type compilation, server-default rendering, string-literal rendering and the schema-type constraint rule "
     "(Boolean/Enum create_constraint, _create_rule per dialect) are parameters of the model: the harness reads them from SQLAlchemy",
-    "identifiers in the pools need no quoting (quoting is C14's subject)",
+    "table/schema identifiers in the pools need no quoting (quoting is C14's subject); mssql column names come from the quoting classes "
+    "and are un-quoted by the statement parser ([..] with ]] and '..' with '')",
 ]
 RULE = (
     "exhaustive over dialect(7) x schema/no schema x subset of requested {type_, nullable, server_default, new_column_name, comment, "
@@ -60,14 +61,16 @@ RULE = (
     "plus a deterministic constraint stream: every constraint-owning existing_type (5) x subset of the non-type attributes (32) x "
     "with/without type_ x dialect x schema = 4480 calls judged by Spec.Alter.constraintOk; a kinds battery (type classes, '' / "
     "func.now() / DefaultClause defaults, schema '' / quoted_name, postgresql_using '') and a configuration battery (literal_binds, "
-    "transactional_ddl, empty/overridden batch separators), each crossed with all 64 requested subsets x 7 dialects; "
+    "transactional_ddl, empty/overridden batch separators), each crossed with all 64 requested subsets x 7 dialects; a names battery "
+    "for mssql (column / new names that the preparer brackets or that contain ' or ]: 64 subsets x 2 x schema x 6 names = 1536 calls; the "
+    "strings inside the sp_rename and drop-default-batch literals are un-escaped and must denote exactly the column); "
     "per pattern one draw of plain values (quick) plus draws mixing in identity/computed defaults, schema-type (Boolean/Enum CHECK) types, "
     "postgresql_using, empty comments and same-name renames; 2 initial columns per case for the spec (one adversarial: every unstated "
     "attribute differs from what a restating statement would reset it to). A case is non-trivial when at least one attribute is requested; "
     "distinct by (dialect, schema, requested set, stated set, value kinds, exception class, statement kinds)"
 )
 ASSUMPTIONS = [
-    "table/column/schema names are plain identifiers; comments contain no quote characters",
+    "table/schema names are plain identifiers (mssql column names: quoting classes); comments contain no quote characters",
     "C13.exact_partial: server defaults are plain values or None; identity/computed defaults are covered by separate theorems and by the known finding C13-PG-IDENTITY-ASSUMED",
 ]
 
@@ -367,6 +370,25 @@ def kinds_battery(rng):
                     yield dialect, req
 
 
+def names_battery(rng):
+    """MSSQL with column / new column names of the identifier-quoting classes (the names are embedded in bracketed
+    identifiers AND in T-SQL string literals: sp_rename, the drop-default batch): every requested subset x
+    (nothing | everything stated) x schema x column name"""
+    for requested in subsets(REQ_ATTRS):
+        for stated in ((), tuple(EX_ATTRS)):
+            for schema in (False, True):
+                for col in ai.QUOTED_NAMES:
+                    req = draw_values(rng, requested, stated, schema, False)
+                    req["column"] = col
+                    if req["new_name"] is not None:
+                        req["new_name"] = rng.choice(ai.QUOTED_NAMES + ["c2"])
+                    if "ex_type" in stated and rng.random() < 0.3:
+                        req["ex_type"] = rng.choice(ai.TYPE_KEYS_CK)
+                    if req["type"] is not None and rng.random() < 0.3:
+                        req["type"] = rng.choice(ai.TYPE_KEYS_CK)
+                    yield "mssql", req
+
+
 def config_battery(rng):
     """context configurations (literal_binds, transactional_ddl given, batch separators overridden/empty): the emitted
     statements must not depend on them -- every requested subset x (nothing stated | everything stated) x schema"""
@@ -402,6 +424,9 @@ def run(ctx, rng_name="main", draws=None, budget_s=None):
     for dialect, req in kinds_battery(ctx.rng(rng_name + "/kinds")):
         b.add(dialect, req)
         ctx.hist("stream", "kinds")
+    for dialect, req in names_battery(ctx.rng(rng_name + "/names")):
+        b.add(dialect, req)
+        ctx.hist("stream", "names")
     for dialect, req in config_battery(ctx.rng(rng_name + "/config")):
         b.add(dialect, req)
         ctx.hist("stream", "config:" + req["config"])
